@@ -6,7 +6,7 @@ import shutil
 import sys
 import tempfile
 
-from core import Check, HarnessError, run_check
+from core import Check, HarnessError, run_check, watchdog
 import fakemp
 import gen
 
@@ -175,7 +175,7 @@ def c12(ck, tmp):
                 sg["seq"] = rng.choice("ACGT")
         adj = g.adjacency()
         seqd = g.seqd()
-        text = g.text()
+        text = g.text(shuffle_rng=rng if rng.random() < 0.5 else None, other_records=rng.random() < 0.3)    # S / L lines in any order, H line
         tok = tokenize_gfa(text)
         lines, reads, steps_l = [], [], []
         for k in range(rng.randint(4, 14)):
@@ -362,6 +362,35 @@ def real_runs(ck, prop, tmp, inputs, n):
     os.environ.pop("GAFTOOLS_VERIF_BATCH_SIZE", None)
 
 
+def default_batch_runs(ck, tmp, cores_list):
+    """the tool's own batch size (a thousand records) with the real multiprocessing: 1 500 records, i.e. one full batch and a
+    partial one collected in the same round; the file must be the single-core file"""
+    import gaftools.cli.realign as R
+    os.environ.pop("GAFTOOLS_VERIF_BATCH_SIZE", None)
+    gaf, fasta = make_input(tmp, 1500)
+    ref = reference(gaf, fasta, tmp)
+    for cores in cores_list:
+        out = io.StringIO()
+        try:
+            with watchdog(300):
+                R.realign_gaf(gaf, DATA + "smallgraph.gfa", fasta, out, cores)
+            res = ("ok", None)
+        except SystemExit as e:
+            res = ("exit", e.code)
+        except BaseException as e:  # noqa
+            res = ("crash", type(e).__name__ + ": " + str(e)[:200])
+        lines = out.getvalue().splitlines()
+        meta = {"real_processes": True, "records": 1500, "batch": "default", "cores": cores, "result": list(res)}
+        ck.case(meta, True, sample=meta)
+        ck.count("default-batch:" + res[0])
+        if res[0] != "ok":
+            ck.violation("realign with the default batch size failed without any worker failure: %s" % (res[1],), meta)
+        elif lines != ref:
+            first = next((i for i, (a, b) in enumerate(zip(lines, ref)) if a != b), min(len(lines), len(ref)))
+            ck.violation("realign --cores %d on 1500 records (default batch size) does not write the single-core file (%d vs %d records; first difference at record %d)" % (
+                cores, len(lines), len(ref), first), dict(meta, got=[l.split("\t")[0] for l in lines[max(0, first - 2):first + 3]], expected=[l.split("\t")[0] for l in ref[max(0, first - 2):first + 3]]))
+
+
 def main_c12():
     ck = Check("C12")
     ck.trusted = ["Lean 4.33.0 kernel", "axioms: propext, Classical.choice, Quot.sound (audited)", "correspondence harness + JSON driver",
@@ -448,6 +477,8 @@ def main(prop):
                 break
         flush_model(ck)
         real_runs(ck, prop, tmp, inputs, 4 if quick else 80)
+        if prop == "C11":
+            default_batch_runs(ck, tmp, [2] if quick else [2, 3, 4])
     finally:
         os.environ.pop("GAFTOOLS_VERIF_BATCH_SIZE", None)
         shutil.rmtree(tmp, ignore_errors=True)
